@@ -176,6 +176,16 @@ type Conn struct {
 
 	onDisconnect func(*Conn)
 
+	// hdrBuf collects a header block that arrives in more than one frame. A
+	// block is only decoded once END_HEADERS has been seen: a field can be cut
+	// anywhere by the end of a frame, and END_STREAM is carried by the HEADERS
+	// frame while the block may end in a CONTINUATION. Blocks never interleave
+	// (RFC 7540 6.10), so one buffer per connection is enough. Read loop only.
+	hdrBuf       []byte
+	hdrStream    uint32
+	hdrEndStream bool
+	hdrOpen      bool
+
 	// done is closed by Close. Every send into in and out selects on it: once
 	// the write loop is gone a bare send blocks forever, and closing in instead
 	// would panic any Write that is running concurrently.
@@ -825,15 +835,51 @@ func (c *Conn) readLoop() {
 // dispatch hands a stream frame to the request waiting on it. It reports
 // whether the read loop should stop.
 func (c *Conn) dispatch(fr *FrameHeader) bool {
-	r, ok := c.loadReq(fr.Stream())
-	if !ok {
-		return false
+	var block []byte
+
+	isHeaders := fr.Type() == FrameHeaders || fr.Type() == FrameContinuation
+	endStream := fr.Flags().Has(FlagEndStream)
+
+	if isHeaders || c.hdrOpen {
+		var (
+			done bool
+			err  error
+		)
+
+		block, done, err = c.assembleHeaderBlock(fr)
+		if err != nil {
+			c.setLastErr(err)
+
+			return true
+		}
+
+		if !done {
+			return false
+		}
+
+		isHeaders, endStream = true, c.hdrEndStream
 	}
+
+	r, ok := c.loadReq(fr.Stream())
 
 	// A canceled or finished request has taken its Response back, so there is
 	// nowhere to put this frame. Drop the stream and carry on.
-	if !r.acquireFor(c, fr.Stream()) {
+	if ok && !r.acquireFor(c, fr.Stream()) {
 		c.dequeueReq(fr.Stream())
+
+		ok = false
+	}
+
+	if !ok {
+		// Nobody is waiting for this stream any more, but a header block still
+		// updates the HPACK table every later response is decoded against.
+		if isHeaders {
+			if err := c.readHeader(block, nil, false); err != nil {
+				c.setLastErr(err)
+
+				return true
+			}
+		}
 
 		return false
 	}
@@ -842,13 +888,35 @@ func (c *Conn) dispatch(fr *FrameHeader) bool {
 	// would wedge the RoundTrip that is waiting to take it back.
 	defer r.release()
 
-	err := c.readStream(fr, r.Response)
+	var err error
+
+	if isHeaders {
+		trailers := r.gotHeaders
+		err = c.readHeader(block, r.Response, trailers)
+
+		// An informational (1xx) response comes before the real one.
+		if sc := r.Response.StatusCode(); err != nil || trailers || sc < 100 || sc > 199 {
+			r.gotHeaders = true
+		}
+	} else {
+		err = c.readStream(fr, r.Response)
+	}
+
 	if err == nil {
-		if fr.Flags().Has(FlagEndStream) {
+		if endStream {
 			c.finish(r, fr.Stream(), nil)
 		}
 	} else {
 		c.finish(r, fr.Stream(), err)
+	}
+
+	// A header block that does not decode leaves the HPACK table in an unknown
+	// state: nothing received after it on this connection can be trusted.
+	var h2err Error
+	if err != nil && errors.As(err, &h2err) && h2err.frameType == FrameGoAway {
+		c.setLastErr(err)
+
+		return true
 	}
 
 	if err != nil && errors.Is(err, FlowControlError) {
@@ -856,6 +924,40 @@ func (c *Conn) dispatch(fr *FrameHeader) bool {
 	}
 
 	return c.state == connStateClosed && fr.Stream() == c.closeRef
+}
+
+// maxHeaderBlock bounds the header block a server can make the client buffer
+// by never setting END_HEADERS.
+const maxHeaderBlock = 1 << 20
+
+// assembleHeaderBlock collects the fragments of a header block. It reports
+// done once END_HEADERS has been seen, and block is then the whole block.
+func (c *Conn) assembleHeaderBlock(fr *FrameHeader) (block []byte, done bool, err error) {
+	switch {
+	case fr.Type() == FrameHeaders && !c.hdrOpen:
+		c.hdrOpen = true
+		c.hdrStream = fr.Stream()
+		c.hdrEndStream = fr.Flags().Has(FlagEndStream)
+		c.hdrBuf = c.hdrBuf[:0]
+	case fr.Type() == FrameContinuation && c.hdrOpen && fr.Stream() == c.hdrStream:
+	default:
+		// CONTINUATION without a block to continue, or anything else in the
+		// middle of one (RFC 7540 6.2, 6.10).
+		return nil, false, NewGoAwayError(ProtocolError, "header block interrupted or continued out of place")
+	}
+
+	c.hdrBuf = append(c.hdrBuf, fr.Body().(FrameWithHeaders).Headers()...)
+	if len(c.hdrBuf) > maxHeaderBlock {
+		return nil, false, NewGoAwayError(EnhanceYourCalm, "header block is too large")
+	}
+
+	if !fr.Flags().Has(FlagEndHeaders) {
+		return nil, false, nil
+	}
+
+	c.hdrOpen = false
+
+	return c.hdrBuf, true, nil
 }
 
 func (c *Conn) writeRequest(ctx *Ctx) error {
@@ -1442,9 +1544,6 @@ func (c *Conn) handlePing(ping *Ping) {
 
 func (c *Conn) readStream(fr *FrameHeader, res *fasthttp.Response) (err error) {
 	switch fr.Type() {
-	case FrameHeaders, FrameContinuation:
-		h := fr.Body().(FrameWithHeaders)
-		err = c.readHeader(h.Headers(), res)
 	case FrameResetStream:
 		// The server gave up on the stream. Without this the request would sit
 		// there until MaxResponseTime, or forever if that check is disabled.
@@ -1487,66 +1586,86 @@ func (c *Conn) updateWindow(streamID uint32, size int) {
 	c.writeOut(fr)
 }
 
-func (c *Conn) readHeader(b []byte, res *fasthttp.Response) error {
-	var err error
+// readHeader decodes a complete header block. With a nil res the fields are
+// thrown away: the block still has to go through the decoder, because the
+// HPACK table belongs to the connection, not to the stream. For the same reason
+// a malformed field does not end the decoding, only the use of what follows;
+// the first such error is returned once the whole block has been decoded. An
+// error from the decoder itself is a connection error.
+func (c *Conn) readHeader(b []byte, res *fasthttp.Response, trailers bool) error {
+	var (
+		err         error
+		malformed   error
+		regularSeen bool
+		statusSeen  bool
+	)
+
 	hf := AcquireHeaderField()
 	defer ReleaseHeaderField(hf)
 
 	dec := c.dec
 
-	var regularSeen bool
-
 	for len(b) > 0 {
 		b, err = dec.Next(hf, b)
 		if err != nil {
-			return err
+			return NewGoAwayError(CompressionError, err.Error())
+		}
+
+		if res == nil || malformed != nil {
+			continue
 		}
 
 		// A response carries exactly one pseudo-header, :status, and it must
-		// come before any regular field.
+		// come before any regular field. Trailers carry none.
 		// https://httpwg.org/specs/rfc7540.html#rfc.section.8.1.2.4
 		if hf.IsPseudo() {
-			if regularSeen {
-				return errPseudoAfterRegular
-			}
+			switch {
+			case trailers:
+				malformed = errPseudoInTrailers
+			case regularSeen:
+				malformed = errPseudoAfterRegular
+			case !bytes.Equal(hf.KeyBytes(), StringStatus):
+				malformed = fmt.Errorf("invalid response pseudo-header %q", hf.KeyBytes())
+			case statusSeen:
+				malformed = errDuplicateStatus
+			default:
+				n, perr := parseUint(hf.ValueBytes())
+				if perr != nil || n < 100 || n > 999 {
+					malformed = errInvalidStatus
+				} else {
+					statusSeen = true
 
-			if !bytes.Equal(hf.KeyBytes(), StringStatus) {
-				return fmt.Errorf("invalid response pseudo-header %q", hf.KeyBytes())
+					res.SetStatusCode(n)
+				}
 			}
-
-			n, err := parseUint(hf.ValueBytes())
-			if err != nil || n < 100 || n > 999 {
-				return errInvalidStatus
-			}
-
-			res.SetStatusCode(n)
 
 			continue
 		}
 
 		regularSeen = true
 
-		if hasUpperCase(hf.KeyBytes()) {
-			return errUpperCaseHeader
-		}
-
-		if isConnectionSpecific(hf.KeyBytes()) {
-			return errConnectionSpecific
-		}
-
-		if bytes.Equal(hf.KeyBytes(), StringContentLength) {
-			n, err := parseUint(hf.ValueBytes())
-			if err != nil {
-				return errInvalidContentLength
+		switch {
+		case hasUpperCase(hf.KeyBytes()):
+			malformed = errUpperCaseHeader
+		case isConnectionSpecific(hf.KeyBytes()):
+			malformed = errConnectionSpecific
+		case bytes.Equal(hf.KeyBytes(), StringContentLength):
+			n, perr := parseUint(hf.ValueBytes())
+			if perr != nil {
+				malformed = errInvalidContentLength
+			} else {
+				res.Header.SetContentLength(n)
 			}
-
-			res.Header.SetContentLength(n)
-		} else {
+		default:
 			res.Header.AddBytesKV(hf.KeyBytes(), hf.ValueBytes())
 		}
 	}
 
-	return nil
+	if malformed == nil && res != nil && !trailers && !statusSeen {
+		malformed = errMissingStatus
+	}
+
+	return malformed
 }
 
 var (
@@ -1555,4 +1674,7 @@ var (
 	errUpperCaseHeader      = errors.New("header field name contains uppercase characters")
 	errConnectionSpecific   = errors.New("connection-specific header field")
 	errInvalidContentLength = errors.New("invalid content-length")
+	errPseudoInTrailers     = errors.New("pseudo-header field in trailers")
+	errDuplicateStatus      = errors.New("duplicate :status pseudo-header")
+	errMissingStatus        = errors.New("response without a :status pseudo-header")
 )
